@@ -29,6 +29,8 @@ type dialSync struct {
 	mutex      sync.Mutex
 	dials      map[peer.ID]*activeDial
 	dialWorker dialWorkerFunc
+	// closeErr is set by cancelAll: the swarm has closed, no new dials are started
+	closeErr error
 }
 
 type activeDial struct {
@@ -55,6 +57,9 @@ func (ad *activeDial) dial(ctx context.Context) (*Conn, error) {
 	case ad.reqch <- dialRequest{ctx: dialCtx, resch: resch}:
 	case <-ctx.Done():
 		return nil, ctx.Err()
+	case <-ad.ctx.Done():
+		// cancelled with callers still waiting: the swarm has closed (cancelAll)
+		return nil, context.Cause(ad.ctx)
 	}
 
 	select {
@@ -62,12 +67,18 @@ func (ad *activeDial) dial(ctx context.Context) (*Conn, error) {
 		return res.conn, res.err
 	case <-ctx.Done():
 		return nil, ctx.Err()
+	case <-ad.ctx.Done():
+		return nil, context.Cause(ad.ctx)
 	}
 }
 
 func (ds *dialSync) getActiveDial(p peer.ID) (*activeDial, error) {
 	ds.mutex.Lock()
 	defer ds.mutex.Unlock()
+
+	if ds.closeErr != nil {
+		return nil, ds.closeErr
+	}
 
 	actd, ok := ds.dials[p]
 	if !ok {
@@ -112,4 +123,15 @@ func (ds *dialSync) Dial(ctx context.Context, p peer.ID) (*Conn, error) {
 	}
 
 	return conn, err
+}
+
+// cancelAll cancels every active dial with the given cause and makes every later
+// Dial fail with it. It is called when the swarm closes.
+func (ds *dialSync) cancelAll(cause error) {
+	ds.mutex.Lock()
+	defer ds.mutex.Unlock()
+	ds.closeErr = cause // no new dials from here on
+	for _, ad := range ds.dials {
+		ad.cancelCause(cause)
+	}
 }
